@@ -39,6 +39,8 @@ def tasks(tier):
     for mx, W in [(1, 2), (2, 3), (1, 3)]:
         out.append({"family": "budget-raw", "cfg": {"max": mx, "window": W, "frac_tick": True},
                     "entry": "Budget", "bound": depth - 2, "weight": 5})
+    out.append({"family": "budget-raw", "cfg": {"max": 70, "window": 2, "big": True},
+                "entry": "Budget", "bound": 6, "weight": 5})
     for mx, W in [(1, 2), (2, 3)]:
         out.append({"family": "budget-raw", "cfg": {"max": mx, "window": W, "widen": True},
                     "entry": "Budget", "bound": depth - 2, "weight": 5})
